@@ -70,10 +70,12 @@ def resetInterval (step : Nat) (base : Int) (arg : Option Int) : Int :=
   | some x => if (step : Int) ≤ x then x else base
   | none => base
 
-/-- hook sites of the accesses, taken from the regenerated literal tables of the source
-    (`verifYield(<site>, …)` arguments in program order; onTicker also contains the literal `1` of `position+1`) -/
-def tickerSites : List Int := Got.Facts.lits_loom_Wheel_onTicker
-def requestSites : List Int := Got.Facts.lits_loom_Wheel_fetchWheelData
+/-- hook sites of the accesses, taken from the regenerated literal tables of the source: the integer literals
+    of the function body in program order, restricted to the wheel's site numbers (`verifYield(<site>, …)`;
+    3 = load position, 4 = load slot, 5 = replace slot, 6 = store position, 7 = close). -/
+def isWheelSite (x : Int) : Bool := x == 3 || x == 4 || x == 5 || x == 6 || x == 7
+def tickerSites : List Int := Got.Facts.lits_loom_Wheel_onTicker.filter isWheelSite
+def requestSites : List Int := Got.Facts.lits_loom_Wheel_fetchWheelData.filter isWheelSite
 
 /-! ### the transition system -/
 
